@@ -77,6 +77,8 @@ func c20(c *Check) {
 		c.Req(i >= 0 && j >= 0 && i < j, "C20/keeper", "app wiring: rvesting BeginBlock precedes distribution", cs.Ins.Pos(), "", "rvesting is not ordered before distribution in SetOrderBeginBlockers")
 	}
 
+	c.Rule("C20/keeper-holds-no-state", "the rvesting keeper consists of wiring only: parameters are read from the params store in every block, never from process memory (a governance parameter change takes effect in the next block on every node)", 4)
+	keeperFieldsRule(c, "C20/keeper-holds-no-state", func(p string) bool { return strings.Contains(p, "/x/rvesting/") })
 	c.Rule("C20/no-other-money-movement", "the rvesting packages move coins only through SendVestedCoins (per block) and the one-off genesis funding; no mint, burn or other transfer", 3)
 	allowed := map[string]string{"SendCoinsFromModuleToModule": "rvesting/keeper.(Keeper).SendVestedCoins", "SendCoinsFromAccountToModule": "rvesting/keeper.(Keeper).InitGenesis", "GetBalance": "rvesting/keeper.(Keeper).GetRemainingCoin"}
 	n := 0
